@@ -515,7 +515,7 @@ func (e *Env) evalCall(n *SCall) Val {
 		return boolVal(e.x.implements(v.Fs[0].S, it))
 	case "chanclosed":
 		v := arg(0)
-		return boolVal(e.x.chanClosed(e.cur, v.S))
+		return boolVal(e.x.chanClosed(e.cur, v))
 	case "hasdeadline":
 		// hasdeadline(ctx): ctx was derived by context.WithTimeout (ghost typestate)
 		v := arg(0)
